@@ -224,6 +224,18 @@ def run(tier):
         if r.get("res") or not r.get("callret"):
             verd.witness("reader-stuck" if r.get("res") else "call-stuck-after-end", sc["desc"][:60], "%s: %s; outstanding call returned: %s" % (sc["desc"], r.get("res") or "connection ended", r.get("callret")),
                          {"scenario": sc, "result": r})
+    # SUBACK return codes that are no QoS (0x80 = refused, and bytes no broker should send) on the retrying / reconnecting
+    # client, followed by a lost session: whatever the client kept of them, re-subscribing must not crash it
+    import retry_family as rf
+    fam = rf.Family(PID)
+    fam.verd = verd
+    gsc = []
+    for code in (0x80, 3, 0x55, 0xFF):
+        for wl in ([rf.SUB(("x", 1)), rf.PUB(1)], [rf.SUB(("x", 2), ("y", 0)), rf.PUB(1), rf.UNSUB("y")]):
+            for how in ("lost", "always"):
+                gsc.append(rf.scenario("gc-%d" % len(gsc), wl, ["conn"] * len(wl), [{"p": "PUBLISH", "n": 1, "o": "cutAfter"}],
+                                       connacks=[{}, {"sp": "false"}] if how == "lost" else [], opts={"grantCode": code, "alwaysResub": how == "always"}))
+    fam.execute(binary, gsc)
     res_s, crashed = run_driver(binary, streams, 50)
     crashed = crashed + crashed_e
     res_p, crashed_p = run_driver(binary, parses, 2000)
